@@ -151,6 +151,7 @@ class Perturbation:
         """Apply the perturbation to the optic."""
         self.value = self.sampler.sample()
         self.variable.update(self.value)
+        self.optic.update()  # pickups and solves follow the perturbation
 
     def reset(self):
         """Reset the perturbation to its original value."""
